@@ -14,6 +14,8 @@ import (
 	"github.com/trustbloc/sidetree-core-go/pkg/document"
 	"github.com/trustbloc/sidetree-core-go/pkg/patch"
 	"github.com/trustbloc/sidetree-core-go/pkg/processor"
+	"github.com/trustbloc/sidetree-core-go/pkg/versions/1_0/doctransformer/didtransformer"
+	"github.com/trustbloc/sidetree-core-go/pkg/versions/1_0/doctransformer/metadata"
 	"github.com/trustbloc/sidetree-core-go/pkg/versions/1_0/model"
 
 	"verifsim/refmodel"
@@ -462,7 +464,12 @@ func (w *aWorld) event() {
 	T := w.k.T
 
 	if len(w.ops) == 0 {
-		w.anchorCreate(false)
+		// C02: the DID may start its life as an unpublished create (published ones must then take precedence)
+		if w.prop == "C02" && T.Draw(3, "create.unpublished") == 0 {
+			w.unpublishedCreate()
+		} else {
+			w.anchorCreate(false)
+		}
 
 		return
 	}
@@ -497,9 +504,30 @@ func (w *aWorld) event() {
 
 	// an outstanding unpublished operation restricts what may happen next (see DESIGN §6 C02)
 	if w.unpubOp != nil {
-		if T.Draw(2, "unpub.resolve") == 0 {
+		switch {
+		case T.Draw(2, "unpub.resolve") == 0:
 			w.publishUnpublished()
-		} else {
+		case w.unpubOp.M.Type == refmodel.Create:
+			// a published create for the same suffix data (same or altered delta) while the controller's own is still unpublished
+			u := w.unpubOp
+			w.anchorCreate(true)
+			w.k.Count("probe:published-vs-unpublished-create")
+
+			if T.Draw(2, "unpub.withdraw") == 0 {
+				w.oracles()
+				_ = w.unpub.Delete(u.A)
+
+				for i, o := range w.ops {
+					if o == u {
+						w.ops = append(w.ops[:i:i], w.ops[i+1:]...)
+
+						break
+					}
+				}
+
+				w.unpubOp = nil
+			}
+		default:
 			w.competitorForUnpublished(st)
 		}
 
@@ -652,6 +680,34 @@ func (w *aWorld) anchorCreate(dup bool) {
 	w.stampNoAdvance(m)
 	w.nontrivial = true
 	w.anchor(req, m, false, "dupcreate")
+}
+
+// unpublishedCreate: the create exists only in the unpublished-operation store.
+func (w *aWorld) unpublishedCreate() {
+	p := &opPlan{typ: operation.TypeCreate, nextUpd: w.newKey("upd"), nextRec: w.newKey("rec"), patches: w.genPatches(false, true), kind: "create-unpublished"}
+	req, m := w.build(p)
+
+	parsed, err := w.version().Parser.ParseCreateOperation(req, true)
+	if err != nil {
+		panic(err)
+	}
+
+	w.suffix, w.createReq, w.createSD = parsed.UniqueSuffix, req, parsed.SuffixData
+
+	m.ID = w.nextID
+	w.nextID++
+	m.Time, m.Number, m.Published = w.now, 0, false
+	m.MaxDelta = int64(w.version().P.MaxOperationTimeDelta)
+
+	a := &operation.AnchoredOperation{Type: operation.TypeCreate, UniqueSuffix: w.suffix, OperationRequest: req, TransactionTime: w.now,
+		ProtocolVersion: w.version().P.GenesisTime, AnchorOrigin: m.Origin}
+	op := &aOp{M: m, A: a, Legit: true, Kind: "unpublished"}
+	w.ops = append(w.ops, op)
+	w.unpubOp = op
+	_ = w.unpub.Put(a)
+	w.nontrivial = true
+	w.k.Count("probe:unpublished-create")
+	w.k.Tr.Logf("#%d unpublished %s", w.k.Steps, m)
 }
 
 func (w *aWorld) stampNoAdvance(m *refmodel.Op) {
@@ -1379,8 +1435,43 @@ func (w *aWorld) oracleModel(rm *protocol.ResolutionModel, err error, st *refmod
 	}
 }
 
+// metaOps renders the operation lists of the transformed resolution metadata (the transformer sorts them itself).
+func (w *aWorld) metaOps(rm *protocol.ResolutionModel, err error) string {
+	if err != nil || rm == nil {
+		return "error"
+	}
+
+	// the transformer sorts the slices it is given in place: hand it copies
+	cp := *rm
+	cp.PublishedOperations = append([]*operation.AnchoredOperation(nil), rm.PublishedOperations...)
+	cp.UnpublishedOperations = append([]*operation.AnchoredOperation(nil), rm.UnpublishedOperations...)
+
+	tr := didtransformer.New(didtransformer.WithIncludePublishedOperations(true), didtransformer.WithIncludeUnpublishedOperations(true))
+
+	res, terr := tr.TransformDocument(&cp, protocol.TransformationInfo{document.IDProperty: "did:sim:" + w.suffix, document.PublishedProperty: len(rm.PublishedOperations) > 0})
+	if terr != nil {
+		return "transform error: " + terr.Error()
+	}
+
+	method, _ := res.DocumentMetadata[document.MethodProperty].(document.Metadata)
+	b, _ := json.Marshal([]interface{}{method[document.PublishedOperationsProperty], method[document.UnpublishedOperationsProperty]})
+
+	// published operations must be listed in anchoring order
+	if pl, ok := method[document.PublishedOperationsProperty].([]*metadata.PublishedOperation); ok {
+		for i := 1; i < len(pl); i++ {
+			a, c := pl[i-1], pl[i]
+			if a.TransactionTime > c.TransactionTime || (a.TransactionTime == c.TransactionTime && a.TransactionNumber > c.TransactionNumber) {
+				w.fail("C02", "metadata/published-order", fmt.Sprintf("resolution metadata lists published operation (%d,%d) before (%d,%d)", a.TransactionTime, a.TransactionNumber, c.TransactionTime, c.TransactionNumber))
+			}
+		}
+	}
+
+	return string(b)
+}
+
 // oraclePermutations: whatever order the store returns operations in, the result is identical.
 func (w *aWorld) oraclePermutations(rm *protocol.ResolutionModel, err error) {
+	baseMeta := w.metaOps(rm, err)
 	base := dump(rm, err, true)
 	n := 2 + w.k.T.Draw(4, "perm.count")
 
@@ -1388,6 +1479,12 @@ func (w *aWorld) oraclePermutations(rm *protocol.ResolutionModel, err error) {
 		rm2, err2 := w.resolve(w.proc)
 		if d := dump(rm2, err2, true); d != base {
 			w.fail("C02", "order-dependence", fmt.Sprintf("two store orders give different results after %d events:\n A: %s\n B: %s", len(w.ops), base, d))
+
+			return
+		}
+
+		if m := w.metaOps(rm2, err2); m != baseMeta && w.k.Viol == nil {
+			w.fail("C02", "metadata/order-dependence", fmt.Sprintf("two store orders give different operation lists in the transformed metadata after %d events", len(w.ops)))
 
 			return
 		}
